@@ -2389,6 +2389,19 @@ class Exec:
             if name == 'extend' and isinstance(b, VBuf):
                 st.heap[b.cell] = z3.Concat(st.heap[b.cell], self.seq(A[0], st))
                 return [(st, VNone())]
+            if name in ('strip', 'lstrip', 'rstrip') and len(A) <= 1:
+                # octets removed at an end: a piece of the value (uninterpreted which; facts: no longer, and a prefix / suffix / infix)
+                arg = 'whitespace'
+                if A:
+                    m = self.seq(A[0], st)
+                    m = z3.simplify(m)
+                    arg = str(m)[:60]
+                F = z3.Function('BYTES_%s[%s]' % (name.upper(), arg), BYTES, BYTES)
+                x = self.seq(b, st)
+                t = F(x)
+                st.facts.append(z3.Length(t) <= z3.Length(x))
+                st.facts.append(z3.PrefixOf(t, x) if name == 'rstrip' else z3.SuffixOf(t, x) if name == 'lstrip' else z3.Contains(x, t))
+                return [(st, self.new_buf(st, t) if isinstance(b, VBuf) else VBytes(t))]
             if name == 'encode':
                 return [(st, b)]
             if name in ('upper', 'lower'):
